@@ -51,7 +51,7 @@ JSON JSON::parse(StringReader& r, bool disable_extensions) {
       expected_separator = ',';
 
       skip_whitespace_and_comments(r, disable_extensions);
-      if (!disable_extensions && (r.get_s8(false) == '}')) {
+      if ((!disable_extensions || (separator == '{')) && (r.get_s8(false) == '}')) {
         r.get_s8();
         break;
       }
@@ -80,7 +80,7 @@ JSON JSON::parse(StringReader& r, bool disable_extensions) {
       expected_separator = ',';
 
       skip_whitespace_and_comments(r, disable_extensions);
-      if (!disable_extensions && (r.get_s8(false) == ']')) {
+      if ((!disable_extensions || (separator == '[')) && (r.get_s8(false) == ']')) {
         r.get_s8();
         break;
       }
